@@ -12,3 +12,6 @@ pub assume_specification<T> [ <[T]>::reverse ] (s: &mut [T])
 
 pub assume_specification<T> [ <[T] as AsRef<[T]>>::as_ref ] (s: &[T]) -> (r: &[T])
     ensures r@ == s@;
+
+pub assume_specification<T: Clone> [ <[T]>::to_vec ] (s: &[T]) -> (r: Vec<T>)
+    ensures r@ == s@;
